@@ -10,6 +10,7 @@ import (
 	"fmt"
 	"strings"
 	"sync"
+	"time"
 
 	jsonata "github.com/blues/jsonata-go"
 )
@@ -19,6 +20,12 @@ type c06Job struct {
 	expr   *jsonata.Expr
 	input  interface{}
 	expect string
+}
+
+type c06Suspect struct {
+	j     c06Job
+	got   string
+	k, it int
 }
 
 func c06Outcome(prog string, r goResult) string {
@@ -53,7 +60,10 @@ func runC06(c *ctx) {
 	// resource use that adds up across goroutines: bounded recursion (32 goroutines x depth 60 is far more nesting than any
 	// single evaluation has).  Growing and shrinking goroutine stacks is expensive under the race detector, so these run in
 	// two short rounds of their own.
-	deep := []string{"($f := function($d){$d <= 0 ? n : 1 + $f($d - 1)}; $f(45))", "($h := function($d){$d <= 0 ? a : $h($d - 1).$substringBefore(\"z\")}; $h(20))"}
+	// $c06pause() sleeps for a millisecond at the bottom of the recursion: the goroutine gives up its processor while it is
+	// deep inside nested calls, so all 32 evaluations are in flight, deeply nested, at the same time
+	jsonata.RegisterExts(map[string]jsonata.Extension{"c06pause": {Func: func() (float64, error) { time.Sleep(3 * time.Millisecond); return 0, nil }}})
+	deep := []string{"($f := function($d){$d <= 0 ? $c06pause() + n : 1 + $f($d - 1)}; $f(90))", "($g := function($d, $acc){$d <= 0 ? $acc + $c06pause() : $g($d - 1, $acc + n)}; $g(100, 0))"}
 	g := &pgen{r: r, noRand: true}
 	inputFor := func(k int) interface{} {
 		d := fullDoc(newRng(int64(k)*7919+c.seed), false)
@@ -72,12 +82,14 @@ func runC06(c *ctx) {
 	for round := 0; round < rounds && !c.tooMany(); round++ {
 		G := []int{2, 4, 8, 16, 32}[round%5]
 		mode := round % 3 // 0 shared Expr, 1 per-goroutine Expr, 2 with Compile/Register in parallel
+		roundStart := time.Now()
 		nprogs := 6
 		iters := itersAll
 		var progs []string
-		if round == 11 || (!c.quick() && round%12 == 11) {
-			// the deep-recursion round: 32 goroutines, few iterations
-			G, iters = 32, 3
+		if round%12 == 0 && round < 60 {
+			// the deep-recursion rounds: 32 goroutines, six iterations
+			// (every goroutine evaluates a deep program in every iteration)
+			G, iters, nprogs = 32, 6, len(deep)
 			progs = append(progs, deep...)
 		}
 		for len(progs) < nprogs {
@@ -107,10 +119,15 @@ func runC06(c *ctx) {
 				if mode != 0 {
 					e = compileOrNil(p)
 				}
+				t0 := time.Now()
 				exp := c06Outcome(p, evalOn(compileOrNil(p), deepCopy(in)))
+				if d := time.Since(t0); d > 300*time.Millisecond && len(c.rep.Notes) < 6 {
+					c.rep.Notes = append(c.rep.Notes, fmt.Sprintf("slow reference evaluation %.2fs: %s -> %s", d.Seconds(), p, trunc(exp, 80)))
+				}
 				jobs[k] = append(jobs[k], c06Job{prog: p, expr: e, input: in, expect: exp})
 			}
 		}
+		seqDone := time.Since(roundStart)
 		var wg sync.WaitGroup
 		var mu sync.Mutex
 		stop := make(chan struct{})
@@ -139,6 +156,7 @@ func runC06(c *ctx) {
 			}(round)
 		}
 		var ewg sync.WaitGroup
+		var suspects []c06Suspect
 		for k := 0; k < G; k++ {
 			ewg.Add(1)
 			go func(k int) {
@@ -147,15 +165,11 @@ func runC06(c *ctx) {
 					j := jobs[k][(it+k)%len(jobs[k])]
 					got := c06Outcome(j.prog, evalOn(j.expr, j.input))
 					if got != j.expect {
-						if inherentlyVaries(j.prog, j.input) {
-							return
-						}
+						// whether the program's outcome varies by itself (map iteration order) is decided after the round,
+						// when nothing else runs: re-evaluating here, next to the other goroutines, would blame the map order
+						// for differences that the concurrency causes
 						mu.Lock()
-						mismatches++
-						if mismatches <= 5 {
-							c.disagree(Disagreement{Kind: "concurrent", Prog: j.prog, Input: j.input, InputS: fmt.Sprintf("goroutines=%d mode=%d goroutine=%d iteration=%d programs=%q", G, mode, k, it, progs),
-								Go: got, Model: j.expect + " (sequential)"})
-						}
+						suspects = append(suspects, c06Suspect{j: j, got: got, k: k, it: it})
 						mu.Unlock()
 						return
 					}
@@ -165,6 +179,19 @@ func runC06(c *ctx) {
 		ewg.Wait()
 		close(stop)
 		wg.Wait()
+		for _, sp := range suspects {
+			if inherentlyVaries(sp.j.prog, sp.j.input) {
+				continue
+			}
+			mismatches++
+			if mismatches <= 5 {
+				c.disagree(Disagreement{Kind: "concurrent", Prog: sp.j.prog, Input: sp.j.input, InputS: fmt.Sprintf("goroutines=%d mode=%d goroutine=%d iteration=%d programs=%q", G, mode, sp.k, sp.it, progs),
+					Go: sp.got, Model: sp.j.expect + " (sequential)"})
+			}
+		}
+		if d := time.Since(roundStart); d > 5*time.Second {
+			c.rep.Notes = append(c.rep.Notes, fmt.Sprintf("round %d (goroutines=%d mode=%d iterations=%d) took %.1fs (sequential reference pass %.1fs)", round, G, mode, iters, d.Seconds(), seqDone.Seconds()))
+		}
 		c.rep.Cases += G * iters
 		c.rep.Buckets[fmt.Sprintf("goroutines=%d/mode=%d", G, mode)] += G * iters
 		for _, p := range progs {
